@@ -16,6 +16,7 @@ Main results (namespace `PG`):
                                           — evaluated counterexamples
 -/
 import PGModel.Demography
+import PGModel.ConfigDemo
 import PGProofs.Schedule
 
 namespace PG
@@ -706,10 +707,7 @@ theorem Dict.lookup_insert {κ ν} [BEq κ] [LawfulBEq κ] (d : Dict κ ν) (k k
     · simp [hk, List.lookup_cons]
 
 
-/-- the value of a key in an epoch (`epoch.pop_sizes[p]` resp. `epoch.migration_rates[(a, b)]`). -/
-def Epoch.value (e : Epoch) : Key → Option ℚ
-  | .size p => e.sizes.lookup p
-  | .mig a b => e.mig.lookup (a, b)
+/- `Epoch.value` (the value of a key in an epoch) lives in `PGModel/ConfigDemo.lean`, linked into `pgdriver`. -/
 
 theorem Epoch.value_set (e : Epoch) (k k' : Key) (v : ℚ) :
     (e.set k v).value k' = if k' = k then some v else e.value k' := by
